@@ -180,7 +180,22 @@ func init() {
 		if err != nil || e == nil {
 			return "err"
 		}
-		return "ok " + entityID(e)
+		// the payload stream handed out by Load must still be usable after the verification
+		n := 0
+		for {
+			_, err := d.Data.Next()
+			if err == io.EOF {
+				break
+			}
+			if err != nil {
+				return "ok " + entityID(e) + " payload-broken"
+			}
+			if _, err := ioutil.ReadAll(d.Data); err != nil {
+				return "ok " + entityID(e) + " payload-broken"
+			}
+			n++
+		}
+		return fmt.Sprintf("ok %s %d", entityID(e), n)
 	}
 	// zstd / lzma encoders for the package builder (Python has neither in its standard library here)
 	ops["compress"] = func(a []string) string {
